@@ -7,7 +7,7 @@ import pipelib
 
 MANIFEST = {
  "category": "translation_validation",
- "text": "Mro/Sem.v is the source-level dataflow semantics of core MRO as a Coq function (program, arguments, stage oracle) -> (top-level outs, every job's arguments); it contains no schedule. Coq theorems (Properties/C01.v, all closed) state what that function delivers for all programs and all stage oracles: null for disabled calls, exactly the denoted binding values for single calls, element i of every split argument for fork i of a mapped call with results collected in order, the chunk definitions/outputs complete and in order at the join, return bindings for pipeline outputs, struct narrowing and projection through arrays/typed maps. The implementation is tied to the function on every run: seeded generated programs (nesting depth <= 3, single/array/map calls over static and run-time sized collections incl. empty and null, disabled via inputs and stage outputs, projections, struct narrowing, splitting stages with 0..3 chunks, aliases) are compiled and run by the real mrp+mrjob built from /repo under several adversarial completion orders; the harness's stage executable records what every job read; the Coq kernel evaluates Sem on the same program term (vm_compute) and compares job arguments and final outs.",
+ "text": "Mro/Sem.v is the source-level dataflow semantics of core MRO as a Coq function (program, arguments, stage oracle) -> (top-level outs, every job's arguments); it contains no schedule. Coq theorems (Properties/C01.v, all closed) state what that function delivers for all programs and all stage oracles: no job and null for disabled calls (for a disabled mapped call, within the stated latitude, null or a collection of nulls: nullify v = null; the latitude is a component of the oracle and the comparison searches its assignments), independence of how calls are aliased (C01_alias_invariance: any injective renaming of call ids, consistent in the references, changes no output value, no job argument and no job, only the names in call paths), exactly the denoted binding values for single calls, element i of every split argument for fork i of a mapped call with results collected in order, the chunk definitions/outputs complete and in order at the join, return bindings for pipeline outputs, struct narrowing and projection through arrays/typed maps. The implementation is tied to the function on every run: seeded generated programs (three generator modes, one with everything at once; nesting depth <= 3, ragged inner sizes, single/array/map calls over static and run-time sized collections incl. empty and null, disabled via inputs and stage outputs, projections, struct narrowing, splitting stages with 0..3 chunks, aliases) are compiled and run by the real mrp+mrjob built from /repo under several adversarial completion orders; the harness's stage executable records what every job read; the Coq kernel evaluates Sem on the same program term (vm_compute) and compares job arguments and final outs.",
  "note": "Proof about the model + differential validation of the real runtime against it; the static resolver (resolve_*.go) is not modelled clause by clause, it is the implementation under test. Latitude: collections consisting only of nulls are identified with null on both sides; the runtime forks a stage only over the mapped dimensions its arguments depend on, so the comparison is set equality of (call path, phase, arguments) with multiplicity bounded by the semantics. Trusted: Coq kernel (vm_compute), the generator printing the same program as MRO text and as a Gallina term (a discrepancy shows up as a mismatch), the stage executable, hx JSON transport. Schedule independence of the real runtime is shown on explored schedules only.",
  "technique": "Coq denotational semantics with proved structure theorems + translation validation of real mrp runs against the kernel-evaluated semantics",
 }
